@@ -715,6 +715,14 @@ class Interp(object):
             pv = self.promoted_value(st, o)
             if pv is not None:
                 return pv
+            if o.get("ck") == "promoted" or o.get("s") in (getattr(self.prog, "promoted", None) or {}):
+                # a promoted constant this interpreter cannot evaluate: an inert placeholder - only a *use* of it makes the run undecided
+                # (the normalising pass leaves dead loads behind, e.g. the `&(1..=64)` of a `contains` it has expanded)
+                if ty.get("k") == "ref":
+                    slot = -800 - (abs(hash(o.get("s"))) % 90)
+                    st.locals[slot] = Opaque("const", (o.get("s"),))
+                    return Ref(("local", slot, (), st.frame))
+                return Opaque("const", (o.get("s"),))
             raise Undecided("constant of type %s" % (ty.get("s") or ty.get("k")))
         raise Undecided("operand kind %s" % k)
 
